@@ -12,6 +12,7 @@ mod case {
 
 mod ast;
 mod c16;
+mod c18;
 mod dump;
 mod front;
 
@@ -36,6 +37,7 @@ fn dispatch(v: &Value) -> Value {
     match cmd {
         "rename_direct" | "rename_e2e" | "serde_case" | "unicode" => c16::handle(cmd, v),
         "parse" => front::handle(cmd, v),
+        "c18" | "c18_from" | "c18_json" | "c18_cmp" => c18::handle(cmd, v),
         "ast" | "ast_type" => ast::handle(cmd, v),
         _ => json!({ "bad": format!("unknown cmd {cmd}") }),
     }
